@@ -117,6 +117,14 @@ func worldOf(files map[string]string, root string) (*oracle.World, error) {
 type optSet struct {
 	Name                                     string
 	Minimal, Expand, RemoveUnused, KeepNames bool
+	NoBase       bool // FlattenOpts.BasePath left empty (documented: relative references are then searched from the working directory)
+}
+
+func baseOf(o optSet, root string) string {
+	if o.NoBase {
+		return ""
+	}
+	return root
 }
 
 func parseOpt(o string) optSet {
@@ -131,6 +139,8 @@ func parseOpt(o string) optSet {
 			s.RemoveUnused = true
 		case "keep":
 			s.KeepNames = true
+		case "nobase":
+			s.NoBase = true
 		}
 	}
 	return s
@@ -207,7 +217,7 @@ func runFlattenFault(files map[string]string, root string, o optSet, failAt int,
 		if preQuery != nil {
 			preQuery(r.Spec)
 		}
-		r.Err = analysis.Flatten(analysis.FlattenOpts{Spec: r.Spec, BasePath: root, Minimal: o.Minimal, Expand: o.Expand, RemoveUnused: o.RemoveUnused, KeepNames: o.KeepNames})
+		r.Err = analysis.Flatten(analysis.FlattenOpts{Spec: r.Spec, BasePath: baseOf(o, root), Minimal: o.Minimal, Expand: o.Expand, RemoveUnused: o.RemoveUnused, KeepNames: o.KeepNames})
 	})
 	r.Loads, r.Faulted = ld.loads, ld.failed
 	if r.OK() {
@@ -427,7 +437,7 @@ func relocateRoot(c *runner.Case) {
 
 func (flattenEngine) Info(prop, tier string) runner.Info {
 	base := "G-bundle W: systematic corpus (one small bundle per cell of holder x container x target, extended holders, nesting depth 2..4, name class x role x local/imported x used/unused, collision patterns, non-schema ref kinds, unused chains, several callers of one anonymous pointer: the same for every seed) " +
-		"plus seeded random compositions of 3..12 such features; documents are served to the library by an in-memory spec.PathLoader; each bundle is run only under the option sets it is in W for. "
+		"plus seeded random compositions of 3..12 such features; documents are served to the library by an in-memory spec.PathLoader; each bundle is run only under the option sets it is in W for (single-document bundles also with an empty BasePath). "
 	in := runner.Info{Level: "exploration", MaxEventKeys: []string{"max_loop_iterations", "max_schema_depth"},
 		Assumptions: []string{"spec.Swagger Unmarshal/Marshal defines the normal form", "encoding/json", "own $ref resolver (RFC 3986 relative file refs + RFC 6901) and bisimulation, self-tested by a W validator on every bundle", "hooks H1/H2/H3 behind the verif tag"},
 		AllCells:    gen.AllBundleCells(), MinSuccessPct: 90}
@@ -1114,7 +1124,7 @@ func (e flattenEngine) c08(res *runner.Result, files map[string]string, root str
 	ld := &memLoader{files: files}
 	curLoader = ld
 	_, pi := runner.Call(nodes, nil, func() {
-		err = analysis.Flatten(analysis.FlattenOpts{Spec: run.Spec, BasePath: root, Minimal: o.Minimal, Expand: o.Expand, RemoveUnused: o.RemoveUnused, KeepNames: o.KeepNames})
+		err = analysis.Flatten(analysis.FlattenOpts{Spec: run.Spec, BasePath: baseOf(o, root), Minimal: o.Minimal, Expand: o.Expand, RemoveUnused: o.RemoveUnused, KeepNames: o.KeepNames})
 	})
 	curLoader = nil
 	res.Evals++
